@@ -76,7 +76,7 @@ void h_write(void) {
   g_write_calls = 0; g_write_result = nondet_int(); g_consumed = nondet_size(); g_strtoul_result = nondet_ulong();
   for (int i = 0; i < 4; i++) g_text[i] = nondet_char();
   __CPROVER_assume(g_text[3] == 0 && g_consumed <= 3 && in.name >= NAME_NULL && in.name < 100 && out.m_data.n <= SS_CAP);
-  __CPROVER_assume(in.name <= 0 || g_consumed == 0);                    /* a name is not a number text */
+  /* (a name of the list may itself read as a number: names are looked up first) */
   /* strtoul: nothing consumed => 0 */
   __CPROVER_assume(g_consumed > 0 || g_strtoul_result == 0);
   result_t r = VLF_writeSymbols(&f, 0, &in, &out, &used);
